@@ -11,7 +11,12 @@ import (
 )
 
 // render gives attributes the canonical string form shared with the reference machines.
-func render(v any) string {
+func render(v any) string { return renderD(v, 0) }
+
+func renderD(v any, depth int) string {
+	if depth > 40 {
+		return "..."
+	}
 	switch x := v.(type) {
 	case nil:
 		return "nil"
@@ -26,15 +31,15 @@ func render(v any) string {
 		}
 		var s []string
 		for _, k := range x.Kids {
-			s = append(s, render(k))
+			s = append(s, renderD(k, depth+1))
 		}
 		return fmt.Sprintf("N%d(%s)", x.Alt, strings.Join(s, ","))
 	case *rt.ErrRef:
 		var s []string
 		for _, k := range x.ErrorSymbols {
-			s = append(s, render(k))
+			s = append(s, renderD(k, depth+1))
 		}
-		return fmt.Sprintf("E(%s;%s)", render(x.ErrorToken), strings.Join(s, ","))
+		return fmt.Sprintf("E(%s;%s)", renderD(x.ErrorToken, depth+1), strings.Join(s, ","))
 	}
 	return fmt.Sprintf("?%T(%v)", v, v)
 }
@@ -234,6 +239,9 @@ func init() {
 				return
 			}
 			for _, t := range terms {
+				if st.enough() {
+					return
+				}
 				seq = append(seq, t)
 				step()
 				walk(d + 1)
